@@ -261,6 +261,15 @@ pub fn c11_case(rs: u64, _nonce: u64, replay: Option<Vec<u32>>) -> CaseOutcome {
         let pos = target as u16;
         enumerate_op!(w, out, st, snap, target, "aprd.receive::<u16>", true, async { Command::aprd(pos, reg).receive::<u16>(md).await.map(|v| v.to_le_bytes()) });
         enumerate_op!(w, out, st, snap, target, "apwr.send_receive::<u16>", true, async { Command::apwr(pos, 0x0f84).send_receive::<u16>(md, 0x4321u16).await.map(|v| v.to_le_bytes()) });
+        // FRMW: the addressed device answers the read, every *other* DC capable device takes the value
+        // as a write and counts too, so the default expectation of one only fits a segment in
+        // which no other device supports DC.
+        let others_dc = specs.iter().enumerate().filter(|(i, s)| *i != target && s.dc_supported()).count();
+        if others_dc == 0 {
+            out.probes.insert("frmw_with_default_expectation".into(), 1);
+            enumerate_op!(w, out, st, snap, target, "frmw.receive::<u16>", true, async { Command::frmw(addr, 0x0f86).receive::<u16>(md).await.map(|v| v.to_le_bytes()) });
+            enumerate_op!(w, out, st, snap, target, "frmw.receive_slice", true, async { Command::frmw(addr, 0x0f86).receive_slice(md, 4).await.map(|p| p.to_vec()) });
+        }
         enumerate_op!(w, out, st, snap, target, "fprd.receive::<[u8;6]>", true, async { Command::fprd(addr, 0x0f80).receive::<[u8; 6]>(md).await.map(|v| v.to_vec()) });
         let ee_word = 0x30 + w.sim.tape.choose(8, "ee_write_word") as u16;
         enumerate_op!(w, out, st, snap, target, "eeprom_write_dangerously::<u16>", false, async { sd.eeprom_write_dangerously(md, ee_word, 0xa55au16).await.map(|_| [0u8; 0]) });
